@@ -13,8 +13,15 @@ use std::time::Duration;
 struct R {
     gen: u64,
 }
+/// `Reset::reset` of the harness resource is a yield point of the sub-API schedules: when a gate is installed it is
+/// called with the resource's generation (the API-atomic schedules run with no gate)
+static RESET_GATE: std::sync::Mutex<Option<Arc<dyn Fn(u64) + Send + Sync>>> = std::sync::Mutex::new(None);
 impl Reset for R {
     fn reset(&mut self) -> StdResult<()> {
+        let gate = RESET_GATE.lock().unwrap().clone();
+        if let Some(g) = gate {
+            g(self.gen);
+        }
         Ok(())
     }
 }
@@ -426,6 +433,70 @@ fn main() {
                     "A: acquire(gen 0), give back -> parked at give_back_resource:before_lock; main: start_new_generation; release A; refill; acquire");
             }
         }
+        // sub-API schedule 3: every `Reset::reset` call made by `reset_available_resources`, `give_back_resource`,
+        // `give_back_resource_pool_item` or a drop is a point at which another thread runs the prover's refresh
+        // (`start_new_generation`, refill with the new generation, one acquire so that a slot is free). The caller is
+        // parked inside the n-th reset until the refresh is over, or for 200 ms when the refresh can not run meanwhile
+        // (the pool's lock is held around the reset: the refresh then simply comes afterwards). Whatever the pool hands
+        // out afterwards must be of the generation in force, and the bound must hold.
+        let mut subapi3 = 0u32;
+        for (what, nidle) in [("reset_available_resources", 3usize), ("reset_available_resources", 2), ("give_back_resource_pool_item", 1), ("drop", 1)] {
+            for nth in 0..nidle {
+                for take_one in [true, false] {
+                    let size = 3usize;
+                    let pool5 = Arc::new(ResourcePool::<R>::new(size, (0..nidle).map(|_| R { gen: 0 }).collect()));
+                    let calls = Arc::new(AtomicU64::new(0));
+                    let parked = Arc::new(AtomicBool::new(false));
+                    let release = Arc::new(AtomicBool::new(false));
+                    let (cl, pk, rl) = (calls.clone(), parked.clone(), release.clone());
+                    *RESET_GATE.lock().unwrap() = Some(Arc::new(move |gen: u64| {
+                        if gen == 0 && cl.fetch_add(1, Ordering::SeqCst) == nth as u64 {
+                            pk.store(true, Ordering::SeqCst);
+                            let t0 = std::time::Instant::now();
+                            while !rl.load(Ordering::SeqCst) && t0.elapsed() < Duration::from_millis(200) {
+                                std::thread::sleep(Duration::from_millis(1));
+                            }
+                        }
+                    }));
+                    let pa = pool5.clone();
+                    let a = std::thread::spawn(move || match what {
+                        "reset_available_resources" => { let _ = pa.reset_available_resources(); }
+                        "give_back_resource_pool_item" => { let it = pa.acquire_resource(Duration::from_secs(20)).unwrap(); let _ = pa.give_back_resource_pool_item(it); }
+                        _ => { let it = pa.acquire_resource(Duration::from_secs(20)).unwrap(); drop(it); }
+                    });
+                    let t0 = std::time::Instant::now();
+                    while !parked.load(Ordering::SeqCst) && t0.elapsed() < Duration::from_secs(25) {
+                        std::thread::sleep(Duration::from_millis(1));
+                    }
+                    let was_parked = parked.load(Ordering::SeqCst);
+                    let (pc, rl2) = (pool5.clone(), release.clone());
+                    let c = std::thread::spawn(move || {
+                        let d = pc.start_new_generation().unwrap();
+                        for _ in 0..size { pc.give_back_resource(R { gen: d }, d).unwrap(); }
+                        if take_one { if let Ok(i) = pc.acquire_resource(Duration::from_millis(500)) { std::mem::forget(i); } }
+                        rl2.store(true, Ordering::SeqCst);
+                        d
+                    });
+                    a.join().unwrap();
+                    let d = c.join().unwrap();
+                    *RESET_GATE.lock().unwrap() = None;
+                    let cnt = pool5.count().unwrap();
+                    let mut handed = vec![];
+                    while let Ok(i) = pool5.acquire_resource(Duration::from_millis(20)) { handed.push(i.gen); std::mem::forget(i); }
+                    let desc = format!("{} on {} idle generation-0 resources parked inside its reset #{}; meanwhile: start_new_generation, refill x{}{}; then drain", what, nidle, nth, size, if take_one { ", one acquire" } else { "" });
+                    subapi3 += 1;
+                    if handed.iter().any(|g| *g != d) {
+                        let i = sink.next_index();
+                        sink.sfail(i, "stale-handout", &format!("the pool handed out generations {:?} under discriminant {} (parked={})", handed, d, was_parked), &desc);
+                    }
+                    if cnt > size {
+                        let i = sink.next_index();
+                        sink.sfail(i, "overfull-concurrent", &format!("{} resources in a pool of size {}", cnt, size), &desc);
+                    }
+                }
+            }
+        }
+        sink.note("subapi3_schedules (a refresh inside every Reset::reset call)", &subapi3.to_string());
         // wake-up: a blocked acquirer gets the resource pushed later
         let pool2 = Arc::new(ResourcePool::<R>::new(1, vec![]));
         let p2 = pool2.clone();
